@@ -40,8 +40,10 @@ BY = {'ord': ('by_ord', lambda x: (x + 1) % 4), 'partial_ord': ('by_partial_ord'
 PRELUDE = '''
 use ::core::cmp::Ordering;
 use ::core::hash::{Hash, Hasher};
-pub fn by_ord(a: &u8, b: &u8) -> Ordering { ((a + 1) % 4).cmp(&((b + 1) % 4)) }
-pub fn by_partial_ord(a: &u8, b: &u8) -> Option<Ordering> { Some(((a + 2) % 4).cmp(&((b + 2) % 4))) }
+// deliberately NOT antisymmetric about Equal: (0, 1) compares Equal, (1, 0) does not - the ORDER in which the derived code hands
+// the two fields to a `by` function is observable (the documented rule: `by(self.x, other.x)`)
+pub fn by_ord(a: &u8, b: &u8) -> Ordering { if (*a, *b) == (0, 1) { return Ordering::Equal; } ((a + 1) % 4).cmp(&((b + 1) % 4)) }
+pub fn by_partial_ord(a: &u8, b: &u8) -> Option<Ordering> { if (*a, *b) == (0, 1) { return Some(Ordering::Equal); } Some(((a + 2) % 4).cmp(&((b + 2) % 4))) }
 pub fn by_eq(a: &u8, b: &u8) -> bool { (*a).min(2) == (*b).min(2) }
 pub fn by_partial_eq(a: &u8, b: &u8) -> bool { (*a).max(1) == (*b).max(1) }
 pub fn by_hash<H: Hasher>(a: &u8, s: &mut H) { s.write_u8(a % 2 + 7) }
@@ -123,6 +125,9 @@ def rejected(tr, combo):
     return False
 
 
+ASYM = (0, 1)      # the one ordered pair on which `by_ord` / `by_partial_ord` say Equal although the reverse pair does not
+
+
 def _cmp(x, y):
     return 'L' if x < y else 'G' if x > y else 'E'
 
@@ -140,7 +145,7 @@ def field_pcmp(ftype, combo, tr, x, y):
         r = _cmp(k(x), k(y))
     else:
         k = BY[s[1]][1]
-        r = _cmp(k(x), k(y))
+        r = 'E' if (x, y) == ASYM and s[1] in ('ord', 'partial_ord') else _cmp(k(x), k(y))
     return REV[r] if reversed_(tr, combo) else r
 
 
@@ -148,6 +153,8 @@ def field_eq(ftype, combo, x, y):
     s = selected('PartialEq', combo)
     if s is None:
         return x == y and not (ftype == 'P' and x == 9)
+    if s[0] == 'by' and s[1] in ('ord', 'partial_ord') and (x, y) == ASYM:
+        return True
     k = (lambda i: FK[i]) if ftype == 'F' else KEY[s[1]][1] if s[0] == 'key' else BY[s[1]][1]
     return k(x) == k(y)
 
